@@ -123,7 +123,7 @@ Section Py.
       | [] => py_store_pairs run d
       | (Some k, e) :: r => bind (ev k) (fun kv => bind (ev e) (fun v => py_dict r (run ++ [(kv, v)]) d))
       | (None, e) :: r =>
-          bind (ev e) (fun mv => bind (py_store_pairs run d) (fun d1 => bind (to_dict mv) (fun m => py_dict r [] (dict_update m d1))))
+          bind (py_store_pairs run d) (fun d1 => bind (ev e) (fun mv => bind (to_dict mv) (fun m => py_dict r [] (dict_update m d1))))
       end.
 
     Definition py_bound (o : option expr) : M value :=
